@@ -201,6 +201,11 @@ def run(res, tier):
     evals, nontrivial, nclean, nrec = 0, set(), 0, 0
     samples = []
     sources = [("extra", s) for s in EXTRA]
+    # every near-miss statement of the list at least once (the list is walked cyclically; some programs use a helper instead)
+    for _ in range(int(len(pysrc.NEAR_MISS) * 4.5)):
+        mode, src = pysrc.generate(rng, mode="nearmiss")
+        sources.append((mode, src))
+    n += len(sources)
     while len(sources) < n:
         mode, src = pysrc.generate(rng, mode=rng.choice(["clean", "clean", "clean", "typed", "nearmiss"]))
         sources.append((mode, literal_conditions(rng, src)))
